@@ -72,6 +72,8 @@ def op_strategies(set_funcs=SET_FUNCS, list_funcs=LIST_FUNCS, symbols=False, loa
             fields["mis"] = st.sampled_from([0, 0, 0, 1, 2])
             fields["as"] = st.one_of(how, how, how, how, st.just("boom"))
             fields["bk"] = st.integers(0, 3)
+        if f in ("insert", "delitem", "setitem", "pop"):
+            fields["ix"] = st.sampled_from([0, 0, 0, 1])
         if f == "insert":
             fields["huge"] = st.sampled_from([0, 0, 0, 0, 1, 2, 3, 4, 5])
         if f == "remove":
